@@ -84,6 +84,14 @@ Lemma py_update_fixed_point (rm : 'cV[F]_m -> 'M[F]_m -> bool) (x : 'cV[F]_n) (P
   (py_sensor_model rm x P z z H Q).1.1 = x.
 Proof. by rewrite py_update_spec; case: (rm _ _) => //=; rewrite update_fixed_point. Qed.
 
+(** an accepted reading changes the covariance in a way that does not depend on the reading, the predicted reading
+    or the state: in particular a reading equal to the prediction (zero innovation) still gives P - K H P *)
+Lemma py_update_cov_independent (rm : 'cV[F]_m -> 'M[F]_m -> bool) (x x' : 'cV[F]_n) (P : 'M[F]_n) (z hx z' hx' : 'cV[F]_m) (H : 'M[F]_(m, n)) (Q : 'M[F]_m) :
+  ~~ rm (z - hx) (invmx (innov_cov P H Q)) -> ~~ rm (z' - hx') (invmx (innov_cov P H Q)) ->
+  (py_sensor_model rm x P z hx H Q).1.2 = (py_sensor_model rm x' P z' hx' H Q).1.2 /\
+  (py_sensor_model rm x P z hx H Q).1.2 = update_cov P H Q.
+Proof. by move=> /negbTE h1 /negbTE h2; rewrite !py_update_spec h1 h2. Qed.
+
 Lemma py_predict_valid (G : 'M[F]_n) (V : 'M[F]_(n, c)) (P : 'M[F]_n) (M : 'M[F]_c) :
   valid P -> valid M -> valid (py_process_model_cov G V P M).
 Proof. by move=> vP vM; rewrite py_predict_spec; exact: predict_valid. Qed.
